@@ -458,13 +458,13 @@ POW_BITS = 4          # exponents i, j <= 8 fit 4 bits
 def bounds():
     q = dict(
         divmod=8, gcd=4, ring2=8, ring_assoc=5, ring_distrib=5,
-        field_pairs=6, field_distrib=5, field_assoc=5, field_single=8, field_pow=4, field_trace=6, field_conj=6,
-        minpoly=4, prim=12, nzd=12,
+        field_pairs=6, field_distrib=5, field_assoc=5, field_single=7, field_pow=4, field_trace=6, field_conj=6,
+        minpoly=4, prim=12, nzd=11,
     )
     t = dict(
         divmod=12, gcd=6, ring2=12, ring_assoc=6, ring_distrib=8,
         field_pairs=8, field_distrib=7, field_assoc=6, field_single=10, field_pow=6, field_trace=8, field_conj=8,
-        minpoly=6, prim=16, nzd=16,
+        minpoly=6, prim=16, nzd=13,
     )
     return tier(q, t)
 
@@ -522,8 +522,9 @@ def build_items():
     field_items("field.minpoly_least", B["minpoly"], 8)
     field_items("field.minpoly_irreducible", B["minpoly"], 12, m_from=2)     # m = 1: no q, r of degree >= 1 below degree 1
     for m in range(1, B["nzd"] + 1):
-        # m = 13 is the only irreducible modulus above 11: its unsat proof is split over the top bits of a
-        nb = 5 if m == 13 else 0
+        # unsat proofs of irreducibility get hard above m = 11: m = 12, 13 are split over the top bits of a;
+        # m = 14..16 are not reached (probed: `unknown` at 100 s already for m = 13 unsplit)
+        nb = {12: 4, 13: 5}.get(m, 0)
         for cube in range(1 << nb):
             its.append(dict(kind="field", clause="field.no_zero_divisors", m=m, cube_bits=nb, cube=cube,
                             config=f"GF(2^{m})" + (f", top {nb} bits of a = {cube:0{nb}b}" if nb else ""), cost=4 ** min(m, 11)))
@@ -535,7 +536,9 @@ def build_items():
             its.append(dict(kind="prim", clause="field.primitive_order_exact", m=m, config=f"GF(2^{m})", cost=1))
         for L in range(1, (min(m, 13) if m == 16 else m) + 1 if m > 1 else 0):     # one item per bit length of the exponent (= trip count of __pow__)
             its.append(dict(kind="prim", clause="field.primitive_order_exact", m=m, L=L, config=f"GF(2^{m}), bit_length(e) = {L}", cost=2 ** L * m * 4,
-                            stretch=(m == 16 and L >= 12)))     # probed: m = 16 is decided up to 11-bit exponents within the item timeout
+                            stretch=(m == 16 and L >= 12) or (common.TIER == "quick" and m == 12 and L >= 10)))
+        # probed: m = 16 is decided up to 11-bit exponents within the item timeout; quick tier: the three slowest
+        # m = 12 items (60..150 s each) are stretch so that the tier stays inside its wall budget
         # (m = 16, L = 14..16 were probed `unknown` at 500 s and are left out; L = 12, 13 run as stretch)
         its.append(dict(kind="prim_full", clause="field.primitive_order_divides", m=m, config=f"GF(2^{m})", cost=m))
     for name in MUTANTS:
@@ -587,7 +590,7 @@ def w_poly(item, mutants=None, native=None):
     I, law, text, names, vs = poly_setup(cl, item["degs"], item["D"], mutants)
     tally = Tally()
     return e2.obligations(PID, cl, item["config"], I, lambda: I.call(law, [e2.SI(vs[n]) for n in names]), vs, [],
-                          native or native_of(law, names), tally, text=text, timeout_s=tier(90, 300),
+                          native or native_of(law, names), tally, text=text, timeout_s=tier(240, 400),
                           cross_check=cross_pick(cl + item["config"]))
 
 
@@ -659,7 +662,7 @@ def w_field(item, F=None, mutants=None, patch=None):
         nat = patch(nat)
     config_level = cl in ("field.no_zero_divisors",)
     return e2.obligations(PID, cl, item["config"], I, lambda: I.call(law, [F] + [e2.SI(vs[n]) for n in names]), vs, assume,
-                          nat, tally, text=text, timeout_s=tier(100, 400), stretch=bool(item.get("stretch")),
+                          nat, tally, text=text, timeout_s=tier(240, 500), stretch=bool(item.get("stretch")),
                           cross_check=cross_pick(cl + item["config"]),
                           config_level=config_level,
                           describe=lambda w, info: f"{text} fails in FiniteBifield({m}) (modulus {bin(F.modulus.value)}) at {w}: {info}")
@@ -981,7 +984,7 @@ def main():
     chk.bound("field.minpoly_least", f"every m = 1..{B['minpoly']}, all elements x all non-zero f with deg f < m")
     chk.bound("field.primitive_order_exact / primitive_order_divides", f"every m = 1..{min(B['prim'], 15)}, all exponents 1 <= e < 2^m - 1, one item per bit length of e"
               + ("; m = 16: alpha^(2^16-1) = 1 and all exponents below 2^11 claimed, 12- and 13-bit exponents stretch, 14..16-bit exponents not reached" if B['prim'] >= 16 else ""))
-    chk.bound("field.no_zero_divisors", f"every m = 1..{B['nzd']}, all pairs of non-zero elements (a <= b by commutativity of the query only)")
+    chk.bound("field.no_zero_divisors", f"every m = 1..{B['nzd']}, all pairs of non-zero elements (a <= b by commutativity of the query only); m = 14..16 not reached")
     chk.bound("bit-vector widths", "2.D+5 (two-operand polynomial laws), 3.D+5 (three-operand), 2.m+4 (field laws); every << + - * carries a no-overflow side condition")
     chk.bound("loops", "merge mode: unrolled under guards, unwinding assertion (guard after the last unrolling unsatisfiable) decided by z3 per path; __pow__, conjugates, minimal_polynomial, trace: fork per trip count; unwinding cap 80")
     chk.stub("FiniteBifield.__call__: the element cache `_element_cache` is replaced by an always-empty mapping (membership False, stores dropped), so every call constructs FiniteBifieldElement(field, value % size) through the real __init__ - same observable value, object identity of cached elements is not modelled")
@@ -996,7 +999,30 @@ def main():
     chk.extra["work_items"] = len(items)
     chk.extra["mutants"] = list(MUTANTS)
     chk.extra["engine"] = "E2: AST interpretation of the real source over QF_BV, merge-on-if, guarded loop unrolling / fork per trip count, z3 5.x; cvc5 cross-check on a seeded sample of unsat obligations"
-    chk.run_items(MOD, "work", items, budget_s=tier(600, 2400))
+    claimed = [it for it in items if not it.get("stretch")]
+    stretch = [it for it in items if it.get("stretch")]
+    t_run = time.time()
+    # claimed items are bounded by their own solver timeouts; the pool budget is only a last-resort guard and is
+    # far above their sum, so that a loaded machine cannot turn claimed obligations into "budget" inconclusives
+    chk.run_items(MOD, "work", claimed, budget_s=tier(2400, 5400))
+    # a worker killed from outside (e.g. by the kernel's OOM killer on a shared machine) breaks the whole pool:
+    # items that were never run because of that are run once more on a fresh pool
+    lost = {o["config"] for o in chk.obs if o["clause"] == "harness" and str(o["what"]).startswith("worker failed")}
+    if lost:
+        redo = [it for it in items if str(it.get("config", it)) in lost]
+        done = {(o["clause"], o["config"]) for o in chk.obs if o["clause"] != "harness"}
+        redo = [it for it in redo if (it["clause"], it["config"]) not in done]
+        chk.obs = [o for o in chk.obs if not (o["clause"] == "harness" and str(o["what"]).startswith("worker failed"))]
+        chk.extra["items_rerun_after_worker_loss"] = len(redo)
+        if redo:
+            chk.run_items(MOD, "work", redo, budget_s=tier(2400, 5400))
+    # stretch items only get what is left of the tier's nominal wall time; unfinished ones are listed as undecided
+    left = tier(240, 1800) - (time.time() - t_run)
+    if stretch and left > 30:
+        chk.run_items(MOD, "work", stretch, budget_s=left)
+    else:
+        for it in stretch:
+            chk.add(ob(it["clause"], it["config"], "inconclusive", what="stretch item not started: tier wall time used up by the claimed items", stretch=True))
     chk.finish(min_obligations=100)
 
 
